@@ -21,7 +21,7 @@ VARIABLE l
 tvars == <<vars, l>>
 S(x) == {x[k] : k \in DOMAIN x}
 
-EnvOf(r) == [ctx |-> IF "ctx" \in DOMAIN r THEN r.ctx ELSE "wide", hist |-> IF "hist" \in DOMAIN r THEN r.hist ELSE "none",
+EnvOf(r) == [ctx |-> IF "ctx" \in DOMAIN r THEN r.ctx ELSE "wide", tries |-> IF "tries" \in DOMAIN r THEN r.tries ELSE 1, hist |-> IF "hist" \in DOMAIN r THEN r.hist ELSE "none",
              loaded |-> {}, hdone |-> TRUE]
 BundleOf(r) == [cas |-> S(r.bundle.cas), lay |-> r.bundle.lay]
 LblOf(e) ==
